@@ -32,6 +32,13 @@ class C02(RailsProp):
                 if o != "none":
                     turn["options"] = {"output-off": {"rails": {"output": False}}, "input-off": {"rails": {"input": False}}, "log": {"log": {"activated_rails": True}},
                                        "llm-params": {"llm_params": {"temperature": 0.2}}}[o]
+        if sc["colang"] == "1.0":
+            # rails configured through parameterised flow ids (one shared subflow per side, the rail is chosen by the parameter)
+            for side in ("in", "out"):
+                checks = [r for r in sc["%s_rails" % side] if r["kind"] == "check"]
+                if len(checks) >= 2 and d.chance(0.5, "flow-param", side):
+                    for r in checks:
+                        r["flow_param"] = True
         if d.chance(0.4, "llm-tails"):
             # "all LLM outputs": the text the rails are shown and the text the user gets are the same text, whatever is in it
             sc["llm_suffix"] = {turn["tok"]: d.choice(TAILS, "tail", t) for t, turn in enumerate(sc["convs"][0]["turns"]) if d.chance(0.6, "tail?", t)}
